@@ -58,8 +58,8 @@ CLAIMED = {
         "and give Equal values (bit-identical floats; identical fu.Repr/String output for concrete numbers). A counterexample is "
         "confirmed natively by evaluating it in ten fresh processes (fresh hash seeds, fresh Go map orders) and comparing output.",
         "33 programs over collections padded to 9..11 members (frozen keeps up to 8 in insertion order whatever the seed), x in "
-        "[-2,2] symbolic; float sum/mean with one arbitrary finite addend; at most 1 (quick) / 2 (thorough) deviating enumerations "
-        "per evaluation, a deviation being any permutation of <=3 members or one transposition of more; stdlib functions, --out "
+        "[-2,2] symbolic; float sum/mean with one arbitrary finite addend; at most 1 deviating enumeration per evaluation "
+        "(2 for the float and superimposed harnesses in the thorough tier), a deviation being any permutation of <=3 members or one transposition of more; stdlib functions, --out "
         "and import order are outside; superimposed sequence items are a listed known finding"),
     "C08": (
         "Bounded symbolic execution of the real wbnf parser, syntax.Compile and Expr.Eval on enumerated concrete program texts "
